@@ -96,13 +96,18 @@ CHECKS = {
    note="Trusted: TLC, pi. Identical-object calls are not made.",
    technique="TLA+ operator TreeEq evaluated by TLC on the MC_Copy state graph; compared with the code on every ordered node pair",
    design="4/C18"),
+ "C19": dict(
+   text="Evaluate.tla states the documented recommendations as, per node, the set of acceptable warning sets over a flat tree projection (names, child lists, word counts, truthiness, ORCID flag), with the UNSPEC corners as several acceptable sets. MC_EvalPlans (TLC) enumerates 5,264 dataset profiles - every threshold at -1/0/+1, every optional part present/absent, abstract text in own content / para / markdown / split / below sections / paras with only inline children, keywords over 1-2 sets, party ids none / other directory / ORCID / both. Each profile is realised as a tree that passes validate.tree (discarded and counted otherwise), evaluated into a pre-filled list and judged node by node by TraceEval.tla: no exception, earlier entries intact, (EvaluationWarning, str, node) triples, exactly an acceptable set at every node. Random rule-guided valid trees go through the same judge; mutated known-name trees, parentless nodes and text-less paras are judged for totality (evaluate.tree and evaluate.node).",
+   note="Word counts and truthiness are observed by the harness projection (Python split); title words separated by spaces. Several physical/size/dataFormat children not generated.",
+   technique="profile enumeration by TLC (MC_EvalPlans) + TLA+ recommendation semantics (Evaluate.tla) judging recorded evaluations with TLC (TraceEval.tla)",
+   design="4/C19"),
  "C20": dict(
    text="Text.tla defines Words, NormOK (no NBSP, no leading/trailing space, no run of spaces, same words in order), XPath NormalizeSpace and the protected-element rule; MC_Text checks on all 55,987 strings <= 6 over {SP,TAB,LF,NBSP,a,b} that the spec's own normaliser satisfies NormOK and is idempotent. Every string <= 5 (thorough 6) plus seeded longer ones is run through normalize() and the (input, output, output-of-output) triple judged by TraceText.tla; seeded XML documents (mixed content, protected elements at several depths, plain and xsi-prefixed attributes, SP/TAB/LF/NBSP in text, tails and attribute values) are normalised twice, input and output parsed by an independent parser and judged: same elements, attribute names and order, values/text space-normalised except below protected elements (NBSP replaced only), idempotent, well-formed.",
    note="Well-formedness and 'what the text denotes' are observed with expat; Unicode whitespace beyond SP/TAB/LF/CR/NBSP is outside the quantifier.",
    technique="TLA+ whitespace semantics model-checked by TLC (MC_Text); recorded normalize() calls trace-validated by TLC (TraceText.tla)",
    design="4/C20"),
 }
-NOT_YET = "machinery for this property is not built yet in this session (see DESIGN.md section 10 build order); not claimed"
+NOT_YET = "not claimed"
 
 def main():
     checks = []
